@@ -4,7 +4,7 @@ import vlib
 from vlib import Check, tlc, harness, OUT
 
 
-def _run(pid, tier, cfg, mode, note):
+def _run(pid, tier, cfg, mode, note, focus=None):
     ck = Check(pid, tier, "model_checking")
     q = tier == "quick"
     ck.assumptions = note
@@ -24,14 +24,36 @@ def _run(pid, tier, cfg, mode, note):
     finally:
         os.unlink(p)
         shutil.rmtree(sb, ignore_errors=True)
-    if doc.get("extra", {}).get("error"):
-        raise vlib.Inconclusive("ufs harness: " + doc["extra"]["error"])
-    hv = doc.get("violations") or []
-    if any(v["tag"] == "harness" for v in hv):
-        raise vlib.Inconclusive("ufs harness problem: %s" % [v for v in hv if v["tag"] == "harness"][0])
-    doc["violations"] = [v for v in hv if v["tag"] == pid]
-    ck.take(doc)
-    ck.add_cov(traces_validated_against_impl=doc["extra"].get("histories", 0))
+    def take(doc, prefix=""):
+        if doc.get("extra", {}).get("error"):
+            raise vlib.Inconclusive("ufs harness: " + doc["extra"]["error"])
+        hv = doc.get("violations") or []
+        if any(v["tag"] == "harness" for v in hv):
+            raise vlib.Inconclusive("ufs harness problem: %s" % [v for v in hv if v["tag"] == "harness"][0])
+        doc["violations"] = [v for v in hv if v["tag"] == pid]
+        if prefix:
+            ck.take(doc, prefix=prefix)
+        else:
+            ck.take(doc)
+        return doc["extra"].get("histories", 0)
+    n = take(doc)
+    if focus:
+        # the complete LTS of a one-name instance (all open modes): every transition replayed, so that every short
+        # combination (e.g. open in each mode, then truncate / chmod / rename / create-again on the same fid) is covered
+        p2 = os.path.join(OUT, "ufs-focus-%d.lts" % os.getpid())
+        r3 = tlc("ufs", "HostLTS", focus, workers=8, timeout=1500, printed_to=p2)
+        if not r3.ok:
+            raise vlib.Inconclusive("HostFS (focus instance) violates %s:\n%s" % (r3.violation, r3.out[-3000:]))
+        ck.add_cov(states=r3.distinct, transitions=r3.generated)
+        ck.cov["tlc_runs"].append({"cfg": focus + " (exhaustive)", "edges_emitted": r3.nprinted, **r3.summary()})
+        try:
+            d2 = harness(["ufs", "-lts", p2, "-sandbox", sb + "f", "-mode", mode, "-random", "20" if q else "300"], timeout=2400)
+        finally:
+            os.unlink(p2)
+            shutil.rmtree(sb + "f", ignore_errors=True)
+        d2["samples"] = []
+        n += take(d2, prefix="focus_")
+    ck.add_cov(traces_validated_against_impl=n)
     return ck
 
 
@@ -52,7 +74,7 @@ def c19(tier):
         "the oracle is the host: each accepted request is also performed as the equivalent direct OS call on a twin directory; ufs tree == twin tree "
         "(names, kinds, contents, permission bits) after every step, read data == twin file data, stat/listing through freshly walked fids == os.Stat/os.ReadDir of the twin",
         "umask 0; runs as root (permission denials are not reachable); names are ordinary names and '..'; rename onto an existing name is not generated",
-        "model vs twin disagreement is reported as model_drift, not as a violation"])
+        "model vs twin disagreement is reported as model_drift, not as a violation"], focus="HostLTS_focus.cfg")
     ck.add_cov(rule="request sequences = TLC simulation of HostFS.tla (2-3 fids, tree depth <=2, files <=3 bytes, 3 creation modes, 3 chmod modes, "
                     "read/write/rdwr with and without truncate); every distinct transition replayed three-way (ufs, twin, model)")
     return ck.finish()
